@@ -86,7 +86,7 @@ func vpC01Cell(ti int) {
 // texts with characters the codecs treat specially (literal backslash sequences, quotes, markup,
 // line separators, texts that are JSON themselves), in every natural-language property of every type,
 // as a single value and inside a two-language map
-var vpC01Texts = []string{`C:\new\table`, `say "hi"`, `<p>a&amp;b</p>`, "line\nbreak", "sep\u2028arator", `{"a":1}`, `\\`, `\"`, "tab\there", `42`, "caf\u00e9 \U0001F600"}
+var vpC01Texts = []string{`C:\new\table`, `say "hi"`, `<p>a&amp;b</p>`, "line\nbreak", "sep\u2028arator", `{"a":1}`, `\\`, `\"`, "tab\there", `42`, "caf\u00e9 \U0001F600", "esc\x1b[0m", "ff\x0c bell\x07 us\x1f del\x7f nul\x00", "\x12"}
 
 func vpH_C01_special_texts() {
 	ti := vpChoice(len(vpTypeNames))
